@@ -16,6 +16,7 @@ use std::collections::HashMap;
 use std::sync::Arc;
 
 pub const STREAM_DATA: &[u8] = b"BASE-STREAM-DATA-0123456789";
+pub const NEW_STREAM_DATA: &[u8] = b"new stream data, written by an update";
 
 /// base file: model ids 1 (raw dict), 2 (compressed dict), 3 (stream); catalog 4, pages 5.
 /// layout 0: single revision, xref stream; layout 1: classic table original (object 2 direct,
@@ -60,12 +61,16 @@ pub fn base_file(hdr: usize, layout: usize) -> Vec<u8> {
 /// uniform view of the two front doors
 pub trait Store {
     fn create(&mut self, v: Primitive) -> Result<PlainRef>;
+    /// create of a value whose primitive form cannot be produced (a stream whose info is not a dictionary)
+    fn create_fail(&mut self) -> Result<PlainRef>;
     fn update(&mut self, r: PlainRef, v: Primitive) -> Result<PlainRef>;
     fn promise(&mut self) -> PromisedRef<Primitive>;
     fn fulfil(&mut self, p: PromisedRef<Primitive>, v: Primitive) -> Result<PlainRef>;
     fn resolve(&self, r: PlainRef) -> Result<Primitive>;
     fn get(&self, r: PlainRef) -> Result<Primitive>;
     fn raw(&self, s: &PdfStream) -> Result<Arc<[u8]>>;
+    /// decoded data, read the way Stream::data reads it (through the stream cache of the open document)
+    fn data(&self, s: &PdfStream) -> Result<Arc<[u8]>>;
     fn save(&mut self) -> Result<Vec<u8>>;
 }
 
@@ -81,6 +86,9 @@ where
 {
     fn create(&mut self, v: Primitive) -> Result<PlainRef> {
         Ok(self.st.create(v)?.get_ref().get_inner())
+    }
+    fn create_fail(&mut self) -> Result<PlainRef> {
+        Ok(self.st.create(pdf::object::Stream::new(5i32, vec![1u8, 2, 3]))?.get_ref().get_inner())
     }
     fn update(&mut self, r: PlainRef, v: Primitive) -> Result<PlainRef> {
         Ok(self.st.update(r, v)?.get_ref().get_inner())
@@ -101,6 +109,10 @@ where
     fn raw(&self, s: &PdfStream) -> Result<Arc<[u8]>> {
         s.raw_data(&self.st.resolver())
     }
+    fn data(&self, s: &PdfStream) -> Result<Arc<[u8]>> {
+        let r = self.st.resolver();
+        pdf::object::Stream::<()>::from_stream(s.clone(), &r)?.data(&r)
+    }
     fn save(&mut self) -> Result<Vec<u8>> {
         Ok(self.st.save(&mut self.trailer)?.to_vec())
     }
@@ -118,6 +130,9 @@ where
 {
     fn create(&mut self, v: Primitive) -> Result<PlainRef> {
         Ok(self.f.create(v)?.get_ref().get_inner())
+    }
+    fn create_fail(&mut self) -> Result<PlainRef> {
+        Ok(self.f.create(pdf::object::Stream::new(5i32, vec![1u8, 2, 3]))?.get_ref().get_inner())
     }
     fn update(&mut self, r: PlainRef, v: Primitive) -> Result<PlainRef> {
         Ok(self.f.update(r, v)?.get_ref().get_inner())
@@ -137,6 +152,10 @@ where
     }
     fn raw(&self, s: &PdfStream) -> Result<Arc<[u8]>> {
         s.raw_data(&self.f.resolver())
+    }
+    fn data(&self, s: &PdfStream) -> Result<Arc<[u8]>> {
+        let r = self.f.resolver();
+        pdf::object::Stream::<()>::from_stream(s.clone(), &r)?.data(&r)
     }
     fn save(&mut self) -> Result<Vec<u8>> {
         self.f.save_to(&self.tmp)?;
@@ -169,6 +188,11 @@ pub fn concretise(v: &Value, bad: &Primitive) -> Primitive {
     if ks == ["#BAD"] {
         return bad.clone();
     }
+    if ks == ["#T"] {
+        let mut info = Dictionary::new();
+        info.insert("Z", Primitive::Integer(2));
+        return Primitive::Stream(pdf::object::Stream::new(info, NEW_STREAM_DATA.to_vec()).to_pdf_stream(&mut pdf::object::NoUpdate).expect("pending stream"));
+    }
     let mut d = Dictionary::new();
     for k in ks {
         assert!(!k.starts_with('#'), "unexpected atom {}", k);
@@ -186,9 +210,11 @@ pub fn abstract_val(s: &dyn Store, r: &Result<Primitive>) -> Value {
             json!(ks)
         }
         Ok(Primitive::Integer(77)) => json!(["#I"]),
-        Ok(Primitive::Stream(st)) => match guarded(|| s.raw(st)) {
-            Outcome::Done(Ok(d)) if &*d == STREAM_DATA && st.info.get("Z").is_some() => json!(["#S"]),
-            Outcome::Done(Ok(d)) => json!(["#STREAM-WRONG-DATA", d.len()]),
+        // the stored bytes (read past the stream cache) and the decoded data (read through it) both have to be the stream's own
+        Ok(Primitive::Stream(st)) => match guarded(|| s.raw(st).and_then(|raw| s.data(st).map(|dec| (raw, dec)))) {
+            Outcome::Done(Ok((d, dec))) if &*d == STREAM_DATA && &*dec == STREAM_DATA && st.info.get("Z").is_some() => json!(["#S"]),
+            Outcome::Done(Ok((d, dec))) if &*d == NEW_STREAM_DATA && &*dec == NEW_STREAM_DATA && st.info.get("Z").is_some() => json!(["#T"]),
+            Outcome::Done(Ok((d, dec))) => json!(["#STREAM-WRONG-DATA", d.len(), dec.len()]),
             Outcome::Done(Err(e)) => json!(["#STREAM-DATA-ERR", err_kind(&e)]),
             Outcome::Panic(p) => json!(["#PANIC", p.sym, p.msg]),
         },
@@ -313,6 +339,12 @@ pub fn replay_case(rep: &mut Report, case: &Value, ci: usize, layout: usize, tmp
         let mut saved: Option<Vec<u8>> = None;
         let outcome: Outcome<Result<Option<PlainRef>>> = match op {
             "create" => { let v = concretise(&st["v"], &bad); guarded(|| s.create(v).map(Some)) }
+            "createfail" => match guarded(|| s.create_fail()) {
+                // the call has to fail, with an error value; the document is as before (checked by the observations below)
+                Outcome::Done(Err(_)) => Outcome::Done(Ok(None)),
+                Outcome::Done(Ok(_)) => Outcome::Done(Err(PdfError::Other { msg: "create of a value without primitive form succeeded".into() })),
+                Outcome::Panic(p) => Outcome::Panic(p),
+            },
             "update" => { let v = concretise(&st["v"], &bad); let rr = refs[&r]; guarded(|| s.update(rr, v).map(Some)) }
             "promise" => guarded(|| { let p = s.promise(); let i = p.get_inner(); promises.insert(ret, p); Ok(Some(i)) }),
             "fulfil" => { let v = concretise(&st["v"], &bad); let p = promises.remove(&r).expect("promise"); guarded(|| s.fulfil(p, v).map(Some)) }
